@@ -305,6 +305,12 @@ def run(w, fn, x, driver=None, flags=frozenset()):
     """Call fn in world w; returns the observation tuple."""
     w.reset()
     args = [x]
+    kwargs = {}
+    if "sig:rich" in flags:
+        args += [5, 6, 7]
+        kwargs = {"k": 8, "z": 9}
+    elif "sig:kwonly" in flags:
+        kwargs = {"k": 8}
     o = d = None
     if "o" in flags:
         o = w.ns["OBJ"](5)
@@ -314,7 +320,7 @@ def run(w, fn, x, driver=None, flags=frozenset()):
         args.append(d)
     before = w.snapshot_globals()
     try:
-        r = fn(*args)
+        r = fn(*args, **kwargs)
         if isinstance(r, types.GeneratorType):
             if driver is None:
                 raise HarnessError("generator program without a driver")
